@@ -51,66 +51,68 @@ class _Rec:
     def _encryptArd(self):
         # the ARD reply is random (os.urandom) and encrypted: its content is property C14; here it is one token
         n0 = len(self.transport.trace)
-        super()._encryptArd()
+        r_ = super()._encryptArd()
         del self.transport.trace[n0:]
         self.transport.trace.append(("write", ARD_TOKEN))
+        return r_
 
     def _t(self, tok):
         self.transport.trace.append(("cb", tok))
 
     def vncAuthFailed(self, reason):
         self._t("authfail:" + (hx(reason if isinstance(reason, bytes) else str(reason).encode()) or "-"))
-        super().vncAuthFailed(reason)
+        return super().vncAuthFailed(reason)
 
     def vncConnectionMade(self):
-        super().vncConnectionMade()
+        r_ = super().vncConnectionMade()
         if not isinstance(self, vclient.VNCDoToolClient):
             self._t("made")
+        return r_
 
     def beginUpdate(self):
         self._t("begin")
-        super().beginUpdate()
+        return super().beginUpdate()
 
     def commitUpdate(self, rectangles=None):
         self._t("commit:" + ";".join("%d.%d.%d.%d" % r for r in (rectangles or [])))
-        super().commitUpdate(rectangles)
+        return super().commitUpdate(rectangles)
 
     def updateRectangle(self, x, y, width, height, data):
         if not self._in_fill:
             self._t("upd:%d:%d:%d:%d:%s" % (x, y, width, height, htok(data)))
-        super().updateRectangle(x, y, width, height, data)
+        return super().updateRectangle(x, y, width, height, data)
 
     def fillRectangle(self, x, y, width, height, color):
         self._t("fill:%d:%d:%d:%d:%s" % (x, y, width, height, "none" if color is None else (hx(color) or "-")))
         self._in_fill = True
         try:
-            self._fill(x, y, width, height, color)
+            return self._fill(x, y, width, height, color)
         finally:
             self._in_fill = False
 
     def copyRectangle(self, srcx, srcy, x, y, width, height):
         self._t("copy:%d:%d:%d:%d:%d:%d" % (srcx, srcy, x, y, width, height))
-        super().copyRectangle(srcx, srcy, x, y, width, height)
+        return super().copyRectangle(srcx, srcy, x, y, width, height)
 
     def updateCursor(self, x, y, width, height, image, mask):
         self._t("cursor:%d:%d:%d:%d:%s:%s" % (x, y, width, height, htok(image), htok(mask)))
-        super().updateCursor(x, y, width, height, image, mask)
+        return super().updateCursor(x, y, width, height, image, mask)
 
     def updateDesktopSize(self, width, height):
         self._t("desktop:%d:%d" % (width, height))
-        super().updateDesktopSize(width, height)
+        return super().updateDesktopSize(width, height)
 
     def bell(self):
         self._t("bell")
-        super().bell()
+        return super().bell()
 
     def copy_text(self, text):
         self._t("cut:" + (hx(text.encode("latin-1")) or "-"))
-        super().copy_text(text)
+        return super().copy_text(text)
 
     def set_color_map(self, first, colors):
         self._t("cmap:%d:%s" % (first, ",".join("%d.%d.%d" % c for c in colors)))
-        super().set_color_map(first, colors)
+        return super().set_color_map(first, colors)
 
 
 class RecBase(_Rec, rfb.RFBClient):
@@ -123,7 +125,7 @@ class RecBase(_Rec, rfb.RFBClient):
 class RecLib(_Rec, vclient.VNCDoToolClient):
     def _fill(self, x, y, w, h, color):
         # whatever fillRectangle the client class has (today: the base class' "repeat the colour and call updateRectangle")
-        super(_Rec, self).fillRectangle(x, y, w, h, color)
+        return super(_Rec, self).fillRectangle(x, y, w, h, color)
 
 
 from vncdotool import command as vcommand  # noqa: E402
@@ -131,7 +133,7 @@ from vncdotool import command as vcommand  # noqa: E402
 
 class RecCli(_Rec, vcommand.VNCDoCLIClient):
     def _fill(self, x, y, w, h, color):
-        super(_Rec, self).fillRectangle(x, y, w, h, color)
+        return super(_Rec, self).fillRectangle(x, y, w, h, color)
 
 
 class RecFac(Fac):
@@ -144,7 +146,7 @@ class RecFac(Fac):
 
 class RecVM(_Rec, vclient.VMWareClient):
     def _fill(self, x, y, w, h, color):
-        super(_Rec, self).fillRectangle(x, y, w, h, color)
+        return super(_Rec, self).fillRectangle(x, y, w, h, color)
 
 
 KINDS = {"base": RecBase, "lib": RecLib, "cli": RecCli, "vmware": RecVM}
